@@ -6,9 +6,17 @@ Inductive c13case :=
 | CTerm (c : ctx) (t : term) (expected : string)              (* one term under explicit keyword arguments *)
 | CStmt (s : stmt) (expected : string)                        (* str(query) of a SELECT statement *)
 | CIns (c : qclass) (row : list term) (expected : string)     (* str(query) of INSERT INTO t VALUES (row) *)
-| CQ (x : query) (expected : string).                          (* str(query) of a nested statement / set operation (shared Query.v) *)
+| CQ (x : query) (expected : string)
+| CStmtH (s : stmt) (head : string) (expected : string).     (* a SELECT with a dialect-specific head: DISTINCT / TOP (n) / modifiers *)                          (* str(query) of a nested statement / set operation (shared Query.v) *)
 
 Definition res_text (r : res string) : string := match r with Ok s => s | Err e => "!" ++ e end.
+
+(* SELECT {distinct}{top | modifier}{select list}: the head goes between the keyword and the select list *)
+Definition splice_head (head txt : string) : string :=
+  match txt with
+  | EmptyString => EmptyString
+  | _ => if String.prefix "SELECT " txt then "SELECT " ++ head ++ String.substring 7 (String.length txt - 7) txt else txt
+  end.
 
 Definition model_text (x : c13case) : string :=
   match x with
@@ -16,9 +24,10 @@ Definition model_text (x : c13case) : string :=
   | CStmt s _ => res_text (render_stmt s)
   | CIns c row _ => res_text (render_insert c row)
   | CQ x _ => res_text (str_query x)
+  | CStmtH s head _ => match render_stmt s with Ok txt => splice_head head txt | Err e => "!" ++ e end
   end.
 Definition expected_text (x : c13case) : string :=
-  match x with CTerm _ _ e | CStmt _ e | CIns _ _ e | CQ _ e => e end.
+  match x with CTerm _ _ e | CStmt _ e | CIns _ _ e | CQ _ e | CStmtH _ _ e => e end.
 
 Definition check_c13 (x : c13case) : bool := String.eqb (model_text x) (expected_text x).
 Definition show_c13 (x : c13case) : string := model_text x.
